@@ -145,3 +145,157 @@ Proof.
   - intros. eapply gstep_slots; eauto.
   - apply init_slots.
 Qed.
+
+(* ================================================================== C01 *)
+Lemma la_done s c : InvPc c s -> pf s = PFDone -> la_ids (look s) = [].
+Proof. intros [P _] Ep. rewrite Ep in P. destruct (look s); try tauto; reflexivity. Qed.
+
+Lemma rev_inj (l m : list nat) : rev l = rev m -> l = m.
+Proof. intros H. rewrite <- (rev_involutive l), <- (rev_involutive m), H. reflexivity. Qed.
+
+(* both returned, nothing lost: every taken message was started *)
+Lemma all_started c s : Inv c s -> lost s = [] -> pf s = PFDone -> rn s = RNDone -> taken s = started s.
+Proof.
+  intros Hi Hl Ep Er. destruct (i_flow _ _ Hi) as (F1 & _). pose proof (i_shape _ _ Hi) as Sh. unfold InvShape in Sh.
+  rewrite Ep, Er in Sh. rewrite Sh, (la_done _ _ (i_pc _ _ Hi) Ep), Hl in F1. simpl in F1. rewrite app_nil_r in F1.
+  apply rev_inj. exact F1.
+Qed.
+
+Lemma all_run_at_return c s : Inv c s -> lost s = [] -> pf s = PFDone -> rn s = RNDone -> live s = [] ->
+  Permutation (taken s) (finished s).
+Proof.
+  intros Hi Hl Ep Er Hlive. rewrite (all_started c s Hi Hl Ep Er). destruct (i_live _ _ Hi) as [L _].
+  rewrite Hlive in L. exact L.
+Qed.
+
+Lemma nodupb_spec l : NoDup l -> nodupb l = true.
+Proof.
+  induction 1 as [|x t Hx Hn IH]; simpl; [reflexivity|]. rewrite IH, andb_true_r. apply negb_true_iff.
+  destruct (mem x t) eqn:E; [apply mem_In in E; contradiction | reflexivity].
+Qed.
+Lemma inclb_spec l m : incl l m -> inclb l m = true.
+Proof.
+  induction l as [|x t IH]; simpl; intros H; [reflexivity|]. apply andb_true_iff. split.
+  - apply mem_In. apply H. left. reflexivity.
+  - apply IH. intros y Hy. apply H. right. exact Hy.
+Qed.
+
+Lemma C01_scan_true c tr : run c (init c) tr <> None -> scan c (C01_check c) (init c) tr = true.
+Proof.
+  intros Hr. apply (scan_all c (C01_check c) (fun _ _ _ _ _ => I) (fun s => Inv c s /\ InvFix c s)); auto.
+  - intros s [Hi (X1 & _)]. unfold C01_check. destruct (started_nodup s (i_flow _ _ Hi)) as [N1 N2].
+    rewrite (nodupb_spec _ N1), (inclb_spec _ _ N2), X1. cbn [isnil andb].
+    destruct (ret s) eqn:Et; [|reflexivity]. destruct (live s) eqn:El; [|reflexivity]. cbn [isnil andb].
+    destruct (i_ret _ _ Hi) as [_ R2]. destruct (R2 Et) as [Ep Er].
+    pose proof (all_run_at_return c s Hi X1 Ep Er El) as Pm.
+    rewrite (inclb_spec _ _ (fun x Hx => Permutation_in x Pm Hx)), (Permutation_length Pm), Nat.eqb_refl. reflexivity.
+  - intros s e s' [Hi Hf] Hs. split; [eapply gstep_inv; eauto | eapply step_fix; eauto using i_pc].
+  - split; [apply init_inv|]. unfold InvFix, init; simpl. repeat split; auto.
+    unfold reachedN. destruct (cN c) as [n|]; [|discriminate]. destruct n; simpl; discriminate.
+Qed.
+
+(* ================================================================== C05 *)
+Lemma one_more s : InvStop s -> tas s <= 1.
+Proof. unfold InvStop. destruct (fin s); lia. Qed.
+
+(* once the stop was requested, a freshly created look-ahead can never take anything *)
+Definition NoNewLa (s : st) : Prop :=
+  fin s = true /\ (look s = LANew \/ look s = LACancelled) /\ (look s = LANew -> pf s = PFTop \/ pf s = PFExit).
+
+Lemma step_nonewla c s e s' : NoNewLa s -> step c s e = Some s' -> NoNewLa s' /\ taken s' = taken s.
+Proof.
+  unfold NoNewLa. intros (Hf & Hl & Hp) Hs.
+  stepcases Hs; rw_fields; try (split; [repeat split; auto | reflexivity]).
+  all: try (destruct Hl; congruence).
+  all: try (destruct Hl as [Hl|Hl]; [destruct (Hp Hl); congruence | congruence]).
+  all: try (destruct b; cbn [eqb] in *; congruence).
+  all: try (rewrite Hf in *; discriminate).
+  all: try (split; [repeat split; auto; try (intros; discriminate) | reflexivity]).
+  all: try (left; reflexivity); try (right; reflexivity); try (intros _; right; reflexivity); try (intros _; left; reflexivity).
+Qed.
+
+Lemma run_nonewla c : forall tr s s', NoNewLa s -> run c s tr = Some s' -> taken s' = taken s.
+Proof.
+  unfold run. induction tr as [|e t IH]; simpl; intros s s' H Hr.
+  - inversion Hr. reflexivity.
+  - destruct (gstep false c s e) eqn:Hs; [|discriminate]. destruct (step_nonewla c s e s0 H Hs) as [H' Ht].
+    rewrite <- Ht. eapply IH; eauto.
+Qed.
+
+Lemma waits c s : InvRet c s -> rn s = RNDone -> live s <> [] -> timedout s = true /\ cW c = true.
+Proof. intros [R _] Er Hl. destruct (R Er); [contradiction | assumption]. Qed.
+
+Lemma budget_exact c s n : Inv c s -> InvFix c s -> cN c = Some n -> 0 < n -> why s = Some CBudget ->
+  fetched s = n /\ (pf s = PFDone -> length (taken s) = n).
+Proof.
+  intros Hi (X1 & X2 & _) En Hp Hw. destruct (i_n _ _ Hi) as [N1 N2]. rewrite Hw in N2. destruct N2 as [_ Hr].
+  rewrite En in N1. destruct n; [lia|]. destruct N1 as [N1 _].
+  assert (Hf : fetched s = S n).
+  { unfold reachedN in Hr. rewrite En in Hr. apply andb_prop in Hr as [_ Hr]. apply Nat.leb_le in Hr. lia. }
+  split; [exact Hf|]. intros Ep. destruct (i_flow _ _ Hi) as (F1 & _ & _ & F4).
+  apply (f_equal (@length nat)) in F1. rewrite !app_length, !rev_length, X1, (la_done _ _ (i_pc _ _ Hi) Ep) in F1.
+  unfold nmsgs in F4. simpl in F1. lia.
+Qed.
+
+Lemma budget_bound c s n : Inv c s -> InvFix c s -> cN c = Some (S n) -> length (taken s) <= S n.
+Proof.
+  intros Hi (X1 & X2 & _) En. destruct (i_n _ _ Hi) as [N1 _]. rewrite En in N1. destruct N1 as [N1 _].
+  destruct (i_flow _ _ Hi) as (F1 & _ & _ & F4).
+  apply (f_equal (@length nat)) in F1. rewrite !app_length, !rev_length, X1 in F1. unfold nmsgs in F4. simpl in F1.
+  destruct (look s) eqn:El; cbn [la_ids length] in F1; try lia.
+  (* look-ahead holds a message: the budget is not yet reached *)
+  destruct (reachedN c (fetched s)) eqn:Er; [specialize (X2 eq_refl); congruence|].
+  pose proof (reachedN_false _ _ _ En Er). lia.
+Qed.
+
+(* the variant: prefetcher pc, queue length, runner pc *)
+Lemma mu_internal c s e s' : fin s = true -> internal e = true -> step c s e = Some s' -> mu s' < mu s.
+Proof.
+  unfold mu. intros Hf Hi Hs.
+  stepcases Hs; try discriminate; rw_fields; rewrite ?app_length; cbn [pfw rnw length] in *; try lia.
+  all: try (rewrite Hf in *; discriminate).
+Qed.
+Lemma mu_env c s e s' : internal e = false -> step c s e = Some s' -> mu s' = mu s /\ (fin s = true -> fin s' = true).
+Proof.
+  unfold mu. intros Hi Hs.
+  stepcases Hs; try discriminate; rw_fields; cbn [pfw rnw] in *; split; auto; try (intros; discriminate).
+Qed.
+Lemma fin_stable c s e s' : fin s = true -> step c s e = Some s' -> fin s' = true.
+Proof. intros Hf Hs. stepcases Hs; auto. Qed.
+
+(* number of internal events of a trace *)
+Fixpoint n_internal (tr : list ev) : nat :=
+  match tr with [] => 0 | e :: t => (if internal e then 1 else 0) + n_internal t end.
+
+Lemma terminates c : forall tr s s', fin s = true -> run c s tr = Some s' -> n_internal tr + mu s' <= mu s.
+Proof.
+  unfold run. induction tr as [|e t IH]; simpl; intros s s' Hf Hr.
+  - inversion Hr. lia.
+  - destruct (gstep false c s e) eqn:Hs; [|discriminate].
+    pose proof (fin_stable c s e s0 Hf Hs) as Hf'. specialize (IH s0 s' Hf' Hr).
+    destruct (internal e) eqn:Hi.
+    + pose proof (mu_internal c s e s0 Hf Hi Hs). lia.
+    + destruct (mu_env c s e s0 Hi Hs) as [Hm _]. lia.
+Qed.
+
+Lemma progress_when_idle c s : Inv c s -> live s = [] -> ending s = [] ->
+  (pf s = PFDone /\ rn s = RNDone) \/ exists e s', internal e = true /\ step c s e = Some s'.
+Proof.
+  intros Hi Hl He. destruct (enabled_or_blocked c s Hi) as [H|[H|[H|H]]]; auto.
+  - destruct H as (Er & L & Hs & Hb & _). pose proof (i_slots _ _ Hi L) as HS. unfold busy in *. rewrite Hl, He in *.
+    simpl in *. destruct (limited_some c L) as [a Ha]. unfold slots in *. rewrite Ha in *. lia.
+  - destruct H as (_ & _ & Hx). contradiction.
+Qed.
+
+Lemma C05_scan_true c tr : run c (init c) tr <> None -> scan c (C05_check c) (init c) tr = true.
+Proof.
+  intros Hr. apply (scan_all c (C05_check c) (fun _ _ _ _ _ => I) (fun s => Inv c s /\ InvFix c s)); auto.
+  - intros s [Hi Hf]. unfold C05_check. apply andb_true_iff. split; [apply andb_true_iff; split|].
+    + apply Nat.leb_le. apply one_more. apply (i_stop _ _ Hi).
+    + destruct (cN c) as [[|n]|] eqn:En; auto. apply Nat.leb_le. eapply budget_bound; eauto.
+    + destruct (ret s) eqn:Et; [|reflexivity]. destruct (i_ret _ _ Hi) as [R1 R2]. destruct (R2 Et) as [_ Er].
+      destruct (R1 Er) as [H|[H1 H2]]; [rewrite H; reflexivity | rewrite H1, H2; apply orb_true_r].
+  - intros s e s' [Hi Hf] Hs. split; [eapply gstep_inv; eauto | eapply step_fix; eauto using i_pc].
+  - split; [apply init_inv|]. unfold InvFix, init; simpl. repeat split; auto.
+    unfold reachedN. destruct (cN c) as [n|]; [|discriminate]. destruct n; simpl; discriminate.
+Qed.
